@@ -76,6 +76,88 @@ class HavocList(list):
     def _bad(self, *a, **k): raise Unsupported(f"length-changing use of the havocked list '{self._name}'")
     append = extend = insert = pop = remove = clear = __iadd__ = _bad
 
+class SearchDone(PathEnd):
+    """the explored function went past its refusal point and started to read the candidate collection: the search did not refuse"""
+class GrowList:
+    """abstraction of a candidate collection that the search loops only append to (checked on the source by `_only_grows`): content
+    unknown, length >= min_len; min_len survives every havoc because appending never shortens a list.  `len()` goes through the
+    `len` contract; any read of the content ends the path as SearchDone (only legal after the search loops)"""
+    def __init__(self, name, min_len=0, exact=True): self._name = name; self.min_len = min_len; self.exact = exact
+    def append(self, x): self.min_len += 1
+    def __iadd__(self, xs): self.min_len += len(xs); return self
+    def havocked(self): return GrowList(self._name, self.min_len, False)
+    def _read(self, *a, **k): raise SearchDone()
+    __iter__ = __getitem__ = __contains__ = __bool__ = __eq__ = pop = index = count = copy = __add__ = __radd__ = __reversed__ = sort = _read
+    def __len__(self): raise Unsupported("len() of an abstract collection outside the len contract")
+def _c_len(x):
+    if isinstance(x, GrowDict):
+        if x.exact_len is not None: return x.exact_len
+        n = _fresh_int("len"); _assume(n.t >= (1 if x.nonempty else 0)); return n
+    if not isinstance(x, GrowList): return len(x)
+    if x.exact: return x.min_len
+    n = _fresh_int("len"); _assume(n.t >= x.min_len); return n
+
+class GrowDict:
+    """candidate dictionary that the search loops only store into: `nonempty` survives every havoc (a store never empties a dict)"""
+    def __init__(self, name, nonempty=False, exact_len=None): self._name = name; self.nonempty = nonempty; self.exact_len = exact_len
+    def __setitem__(self, k, v): self.nonempty = True; self.exact_len = None
+    def havocked(self): return GrowDict(self._name, self.nonempty, None)
+    def _read(self, *a, **k): raise SearchDone()
+    __iter__ = __getitem__ = __contains__ = __bool__ = __eq__ = pop = keys = values = items = get = copy = _read
+    def __len__(self): raise Unsupported("len() of an abstract collection outside the len contract")
+class MonoTrueList(list):
+    """list whose elements the cut loop only ever sets to True (checked on the source): havoc keeps the True entries"""
+class SymRange:
+    """range(lo, hi) with proxy bounds (range contract: the integers lo <= x < hi in ascending order)"""
+    prog = True; st = 1
+    def __init__(self, lo, hi): self.lo_t = _r(lo) if isinstance(lo, SymInt) else z3.RealVal(lo); self.hi_t = _r(hi) if isinstance(hi, SymInt) else z3.RealVal(hi)
+    def member(self, w):
+        t = _r(w) if isinstance(w, SymInt) else z3.RealVal(w)
+        return z3.And(t >= self.lo_t, t < self.hi_t, z3.IsInt(t))
+    def arbitrary(self, vc, name):
+        x = vc.fresh("int", name); _assume(z3.And(z3.ToReal(x.t) >= self.lo_t, z3.ToReal(x.t) < self.hi_t)); return x
+def _c_range(*a):
+    if not any(isinstance(x, SymInt) for x in a): return range(*a)
+    if len(a) == 1: return SymRange(0, a[0])
+    if len(a) == 2 or (len(a) == 3 and a[2] == 1): return SymRange(a[0], a[1])
+    raise Unsupported("range() with a proxy step")
+class InfReal(SymReal):
+    """float('inf'): greater than every (finite) real proxy or number"""
+    def __init__(self): SymReal.__init__(self, z3.Real("INF"))
+    def __gt__(self, o): return True
+    def __ge__(self, o): return True
+    def __lt__(self, o): return False
+    def __le__(self, o): return isinstance(o, InfReal)
+    def __eq__(self, o): return isinstance(o, InfReal)
+    def __ne__(self, o): return not isinstance(o, InfReal)
+    __hash__ = None
+    def _no(self, *a): raise Unsupported("arithmetic on float('inf')")
+    __add__ = __radd__ = __sub__ = __rsub__ = __mul__ = __rmul__ = __truediv__ = __rtruediv__ = __abs__ = _no
+
+def _only_true_stores(loop, name):
+    """inside `loop` the list `name` is only written by `name[..] = True`"""
+    ok_ids = set()
+    for n in ast.walk(loop):
+        if isinstance(n, ast.Assign) and len(n.targets) == 1 and isinstance(n.targets[0], ast.Subscript) and isinstance(n.targets[0].value, ast.Name) and n.targets[0].value.id == name \
+           and isinstance(n.value, ast.Constant) and n.value.value is True: ok_ids.add(id(n.targets[0].value))
+    for n in ast.walk(loop):
+        if isinstance(n, ast.Name) and n.id == name and isinstance(n.ctx, ast.Store): return False
+        if isinstance(n, ast.Subscript) and isinstance(n.value, ast.Name) and n.value.id == name and isinstance(n.ctx, (ast.Store, ast.Del)) and id(n.value) not in ok_ids: return False
+        if isinstance(n, ast.Attribute) and isinstance(n.value, ast.Name) and n.value.id == name: return False          # method call on the list
+    return True
+
+def _only_grows(tree, name, loops):
+    """inside the cut loops `name` occurs only as `name.append(..)` / `name += [..]`"""
+    allowed = set()
+    for lp in loops:
+        for n in ast.walk(lp):
+            if isinstance(n, ast.AugAssign) and isinstance(n.target, ast.Name) and n.target.id == name and isinstance(n.op, ast.Add): allowed.add(id(n.target))
+            if isinstance(n, ast.Call) and isinstance(n.func, ast.Attribute) and n.func.attr == "append" and isinstance(n.func.value, ast.Name) and n.func.value.id == name: allowed.add(id(n.func.value))
+            if isinstance(n, ast.Assign) and len(n.targets) == 1 and isinstance(n.targets[0], ast.Subscript) and isinstance(n.targets[0].value, ast.Name) and n.targets[0].value.id == name: allowed.add(id(n.targets[0].value))
+        for n in ast.walk(lp):
+            if isinstance(n, ast.Name) and n.id == name and id(n) not in allowed: return False
+    return True
+
 # ------------------------------------------------------------------------------------------------------------ frame analysis
 def _tnames(t, names, muts):
     if isinstance(t, ast.Name): names.add(t.id)
@@ -170,6 +252,12 @@ class _LevelB(_LevelA):
     """arm (b): `break` of this loop contradicts exhaustion, `continue` ends the witness iteration"""
     def visit_Continue(self, n): return ast.Break()
     def visit_Break(self, n): return _P(f"__vc.contradict({self.lid}, 'break')")
+class _InvCont(_LevelA):
+    """arm (a) of a loop with a declared invariant: the invariant is checked where the iteration ends without leaving"""
+    def visit_Expr(self, n):
+        if isinstance(n.value, ast.Call) and ast.unparse(n.value.func) == "__vc.cut" and ast.unparse(n.value.args[0]) == str(self.lid):
+            return _P(f"__vc.check_inv({self.lid}, locals(), 'step')") + [n]
+        return n
 class _RetB(ast.NodeTransformer):
     """arm (b): `return` at any depth leaves the loop: contradiction with exhaustion"""
     def __init__(self, lid): self.lid = lid
@@ -184,7 +272,7 @@ def _flat(stmts):
 
 class Exhaust(ast.NodeTransformer):
     """rewrites the `for` loops named in `specs` (key: source text of the loop target) with the two-arm rule of the module docstring"""
-    def __init__(self, specs): self.specs = specs; self.n = -1; self.info = {}
+    def __init__(self, specs, grow=()): self.specs = specs; self.n = -1; self.info = {}; self.grow = set(grow)
     def visit_While(self, node): raise Unsupported("while loop in a function under the exhaustion rule")
     def visit_For(self, node):
         self.n += 1; lid = self.n
@@ -192,18 +280,29 @@ class Exhaust(ast.NodeTransformer):
         if key not in self.specs: return self.generic_visit(node)
         if node.orelse: raise Unsupported("for/else")
         names, muts = _nl_assigned(node.body); _tnames(node.target, names, muts)
+        muts |= names & self.grow; names -= self.grow          # `c += [..]` on an append-only collection is a mutation, not a rebinding
         muts -= names
         can_leave = _can_leave(node.body)
         self.info[lid] = dict(target=key, havoc=sorted(names), havoc_containers=sorted(muts), can_leave=can_leave, iter=ast.unparse(node.iter))
         node = self.generic_visit(node)
+        for mt in self.specs[key].get("mono_true", ()):
+            if not _only_true_stores(node, mt): raise Unsupported(f"the list '{mt}' is not written by `{mt}[..] = True` only inside the loop over {key}")
+        typed = set(self.specs[key].get("typed", {}))
         def havoc():
-            src = "".join(f"{n} = __vc.poison('{n}', {lid})\n" for n in sorted(names))
-            src += "".join(f"try: {m} = __vc.hv_cont('{m}', {m})\nexcept NameError: pass\n" for m in sorted(muts))
+            src = "".join(f"try: {m} = __vc.hv_cont('{m}', {m}, {lid})\nexcept NameError: pass\n" for m in sorted(muts))
+            src += "".join(f"{n} = __vc.poison('{n}', {lid})\n" for n in sorted(names - typed))
+            src += "".join(f"{n} = __vc.typed('{n}', {lid}, locals())\n" for n in sorted(names & typed))
             return _P(src or "pass")
         body_a = _flat([_LevelA(lid).visit(copy.deepcopy(s)) for s in node.body])
         body_b = _flat([_LevelB(lid).visit(copy.deepcopy(s)) for s in node.body])
         body_b = _flat([_RetB(lid).visit(s) for s in body_b])
         enter = _P(f"__it{lid} = __vc.enter({lid}, None, locals())"); enter[0].value.args[1] = node.iter
+        has_inv = "inv" in self.specs[key]
+        if has_inv:                                       # declared invariant: checked at the loop head and after an arbitrary non-leaving iteration (arm (a))
+            body_a = body_a + _P(f"__vc.check_inv({lid}, locals(), 'step')")
+            body_a = _flat([_InvCont(lid).visit(s_) for s_ in body_a])
+            enter = enter + _P(f"__vc.check_inv({lid}, locals(), 'init')")
+            can_leave = can_leave or "inv"
         top = _P(f"if __vc.leaves({lid}, {can_leave!r}):\n    pass\nelse:\n    __w{lid} = __vc.witness({lid}, __it{lid}, locals())\n    if __w{lid} is not __vc.NOW:\n        pass")[0]
         el = _P(f"x = __vc.elem({lid}, __it{lid})")[0]; el.targets = [copy.deepcopy(node.target)]
         wh_a = ast.While(test=ast.Constant(True), body=body_a + _P(f"__vc.cut({lid})"), orelse=[])
@@ -224,10 +323,13 @@ class Exhaust(ast.NodeTransformer):
         top.orelse = top.orelse + havoc() + _P(f"__vc.exhausted({lid})")
         return enter + [top]
 
-def rewrite(fn, specs, vc, extra_globals=None):
+def rewrite(fn, specs, vc, extra_globals=None, grow=()):
     src = textwrap.dedent(inspect.getsource(fn))
     tree = ast.parse(src)
-    ex = Exhaust(specs); tree = ex.visit(tree); ast.fix_missing_locations(tree)
+    cut = [n for n in ast.walk(tree) if isinstance(n, ast.For) and ast.unparse(n.target) in specs]
+    for g_ in grow:
+        if not _only_grows(tree, g_, cut): raise Unsupported(f"the collection '{g_}' is not append-only inside the search loops")
+    ex = Exhaust(specs, grow); tree = ex.visit(tree); ast.fix_missing_locations(tree)
     missing = [k for k in specs if k not in [i["target"] for i in ex.info.values()]]
     if missing: raise Unsupported(f"loops {missing} not found in the current source of {fn.__qualname__}")
     g = _contract_globals(dict(fn.__globals__)); g["__vc"] = vc
@@ -274,7 +376,7 @@ class It:
 class XVC:
     NOW = object()           # "no witness here"
     def __init__(self, specs, log, use_witness=True):
-        self.specs = specs; self.k = 0; self.log = log; self.use_witness = use_witness; self.all_arms = False
+        self.specs = specs; self.k = 0; self.log = log; self.use_witness = use_witness; self.all_arms = False; self.grow = (); self.side = []
     def _n(self): self.k += 1; return self.k
     def fresh(self, kind, name):
         k = self._n()
@@ -285,6 +387,7 @@ class XVC:
         e = self.log.setdefault(key, dict(count=0, pc=None)); e["count"] += 1
         if keep_pc and e["pc"] is None: e["pc"] = list(symx.CTX.pc)
     def enter(self, lid, iterable, L):
+        if isinstance(iterable, SymRange): return iterable
         els = []
         for e in iterable:
             els.append(e)
@@ -294,7 +397,8 @@ class XVC:
         """arm (a) or arm (b)?  An iteration that can leave only by `return` ends the call with a configuration: it cannot contribute a
         refusal, so arm (a) is not explored for such loops unless self.all_arms (the soundness modules explore those iterations)"""
         if not can_leave: return False
-        if can_leave == "return" and not self.all_arms: self._ev(("arm-a-not-explored(return-only)", lid)); return False
+        if can_leave == "inv": pass                       # arm (a) is explored for the invariant's step check only
+        elif can_leave == "return" and not self.all_arms: self._ev(("arm-a-not-explored(return-only)", lid)); return False
         return bool(SymBool(z3.Bool(f"leaves{lid}!{self._n()}")))
     def elem(self, lid, it): return it.arbitrary(self, f"x{lid}")
     def witness(self, lid, it, L):
@@ -323,7 +427,19 @@ class XVC:
     def contradict(self, lid, how): self._ev(("dropped-by-exhaustion", lid, how), True); raise PathEnd()
     def cut(self, lid): raise PathEnd()
     def poison(self, name, lid): return Poison(name)
-    def hv_cont(self, name, v):
+    def typed(self, name, lid, L): return self.specs[self.key[lid]]["typed"][name](self, L)
+    def check_inv(self, lid, L, what):
+        t = self.specs[self.key[lid]]["inv"](self, L)
+        t = t.t if isinstance(t, SymBool) else (t if z3.is_expr(t) else z3.BoolVal(bool(t)))
+        r, mdl = _decide(list(symx.CTX.pc) + [z3.Not(t)])
+        self.side.append((f"inv[{self.key[lid]}].{what}", r))
+    def hv_cont(self, name, v, lid=None):
+        if name in self.grow:
+            if isinstance(v, (GrowList, GrowDict)): return v.havocked()
+            if isinstance(v, list): return GrowList(name, len(v), False)
+            if isinstance(v, dict): return GrowDict(name, len(v) > 0, None)
+        if lid is not None and name in self.specs[self.key[lid]].get("mono_true", ()) and isinstance(v, list):
+            return MonoTrueList([True if e is True else self.fresh("bool", f"{name}_{i}") for i, e in enumerate(v)])
         if isinstance(v, dict): return HavocDict(name, v)
         if isinstance(v, list): return HavocList(name, v)
         if isinstance(v, Poison): return v
@@ -391,7 +507,7 @@ def explore(run):
         try:
             out = run(symx.CTX); done += 1
             for name, ob, extra in out:
-                r, mdl = _decide(list(symx.CTX.pc) + [z3.Not(ob)]); results.append((name, r, mdl, extra))
+                r, mdl = _decide(list(symx.CTX.pc) + [z3.Not(ob)]); results.append((name, r, mdl, extra, list(symx.CTX.pc) if r == z3.sat else None))
         except PathEnd: ended += 1
         except Unsupported as e: faults.append(f"unsupported: {e}")
         d = symx.CTX.decisions
@@ -446,6 +562,7 @@ def _c_round(x, nd=None):
     k = _fresh_int("round"); kr = z3.ToReal(k.t); h = z3.RealVal("1/2")
     _assume(z3.And(kr - h <= x.t, x.t <= kr + h)); return k
 def _c_float(x):
+    if isinstance(x, str) and x.strip().lower() in ("inf", "+inf", "infinity"): return InfReal()
     if not isinstance(x, SymInt): return float(x)
     return SymReal(_r(x))
 def _c_pow(a, b, *m):
@@ -459,7 +576,7 @@ def _contract_globals(g):
     _FR[0] = 0
     for k_, v_ in list(g.items()):
         if v_ is math: g[k_] = MathX()
-    g.update(int=_c_int, round=_c_round, float=_c_float, pow=_c_pow)
+    g.update(int=_c_int, round=_c_round, float=_c_float, pow=_c_pow, len=_c_len, range=_c_range)
     return g
 
 # ------------------------------------------------------------------------------------------------------------ helpers for the contracts
@@ -488,25 +605,29 @@ def _val(m, t):
     return None
 _nolog = {"compute_config_log": lambda *a, **k: None}
 
-def prove_complete(label, setup, fn_real, spec_keys, replay=None, extra_globals=None, all_arms=False):
+def prove_complete(label, setup, fn_real, spec_keys, replay=None, extra_globals=None, all_arms=False, grow=()):
     """setup(ctx) -> (pll, witness_specs {loop target: dict(witness=fn(vc, L))}, model_terms {name: z3 term}); runs the exhaustion proof,
     the vacuity guards and, for a counter-model, the native replay `replay(values, planted) -> (verdict, text)`; verdict is
     'refused-though-a-setting-exists' / 'crash' (genuine counterexamples of the real function under plain CPython) or 'ok'.
     planted=True replays the request that has the model's witness setting as an exact solution (tight margins) - another point of
     the input space, decided natively like the first"""
     t0 = time.time(); out = []
-    log = {}; infos = {}; srcs = {}
+    log = {}; infos = {}; srcs = {}; side = []
     def run_with(use_witness):
         def run(ctx):
             pll, specs, terms = setup(ctx)
-            vc = XVC(specs, log if use_witness else {}, use_witness); vc.all_arms = all_arms
-            fn, src, info = rewrite(fn_real, {k: specs.get(k, {}) for k in spec_keys}, vc, extra_globals=dict(_nolog, **(extra_globals or {})))
+            vc = XVC(specs, log if use_witness else {}, use_witness); vc.all_arms = all_arms; vc.grow = tuple(grow)
+            fn, src, info = rewrite(fn_real, {k: specs.get(k, {}) for k in spec_keys}, vc, extra_globals=dict(_nolog, **(extra_globals or {})), grow=grow)
             vc.key = {lid: i["target"] for lid, i in info.items()}
+            if use_witness: vc.side = side
             infos.update(info); srcs["src"] = src
             if use_witness: vc._ev(("witness-assumptions",), True)
             try: fn(pll)
             except ValueError as e:
                 return [("refused", z3.BoolVal(False), dict(terms=terms, msg=str(e)))]
+            except SearchDone:
+                if use_witness: vc._ev(("search-done",), True)
+                return [("returned", z3.BoolVal(False), None)]
             except (PathEnd, Unsupported): raise
             except Exception as e:               # the explored code raised something else on this path (or the proxies cannot execute it)
                 import traceback
@@ -527,17 +648,26 @@ def prove_complete(label, setup, fn_real, spec_keys, replay=None, extra_globals=
                 loops={str(k): v for k, v in infos.items()},
                 witness_not_in_real_iterable=sorted({infos[k[1]]["target"] for k in log if k[0] == "witness-not-in-real-iterable"}))
     def try_replays(rs):
-        """native replays of up to 3 counter-models (as found, then planted); first genuine counterexample wins"""
+        """native replays of counter-models (as found, then planted): up to 3 failing paths x up to 6 models each (further models differ
+        in the witness integers); the first genuine counterexample wins"""
         last = ("ok", "no model", {})
         for r in rs[:3]:
-            if r[2] is None: continue
-            vals = {k: _val(r[2], t) for k, t in r[3]["terms"].items()}
-            if replay is None or any(v is None for v in vals.values()): last = ("ok", "model not evaluable", vals); continue
-            for planted in (False, True):
-                try: verdict, text = replay(vals, planted)
-                except Exception as e: verdict, text = "ok", f"replay failed: {type(e).__name__}: {e}"
-                last = (verdict, text, vals)
-                if verdict != "ok": return last
+            mdl = r[2]; pc = r[4]; terms = r[3]["terms"]; block = []
+            for k in range(6):
+                if mdl is None: break
+                vals = {k_: _val(mdl, t) for k_, t in terms.items()}
+                if replay is None or any(v is None for v in vals.values()): last = ("ok", "model not evaluable", vals); break
+                for planted in (False, True):
+                    try: verdict, text = replay(vals, planted)
+                    except Exception as e: verdict, text = "ok", f"replay failed: {type(e).__name__}: {e}"
+                    if verdict != "ok" or last[1] == "no model": last = (verdict, text, vals)
+                    if verdict != "ok": return last
+                if pc is None: break
+                ints = [t for k_, t in terms.items() if k_.startswith("W_") and t.sort() == z3.IntSort() and not z3.is_int_value(t)]
+                if not ints: break
+                block.append(z3.Or(*[t != mdl.eval(t, model_completion=True) for t in ints]))
+                sv = z3.Solver(); sv.set("timeout", 10000); sv.add(*pc); sv.add(*block)
+                mdl = sv.model() if sv.check() == z3.sat else None
         return last
     if bad:
         verdict, text, vals = try_replays(bad)
@@ -548,13 +678,19 @@ def prove_complete(label, setup, fn_real, spec_keys, replay=None, extra_globals=
         st = VIOLATED if verdict != "ok" else UNKNOWN
         out.append(res(name, "pysym", st, time.time() - t0, "exhaust+z3", model={k: str(v) for k, v in vals.items()},
                        info=(f"the explored code raised {badx[0][3]['msg']} on a feasible path; native replay [{verdict}]: {text}; {badx[0][3].get('tb', '')}")[:1500], detail=info))
-    elif ex["faults"]:
+    elif ex["faults"]:                           # the current source is outside what the rule supports: undecided (no vacuity guards: nothing was proved)
         out.append(res(name, "pysym", UNKNOWN, time.time() - t0, "exhaust+z3", info="; ".join(sorted(set(ex["faults"])))[:600], detail=info))
+        return out
     elif und:
         out.append(res(name, "pysym", UNKNOWN, time.time() - t0, "exhaust+z3", info=f"{len(und)} refusing path(s) undecided", detail=info))
     else:
         out.append(res(name, "pysym", PROVED, time.time() - t0, "exhaust+z3-5.1.0(api)", detail=info,
                        formula="forall request, forall W in the declared ranges with the VCO/PFD windows and per-output margins: compute_config does not raise"))
+    names_ = sorted({n for n, _ in side})
+    for n in names_:
+        rs = [r for n_, r in side if n_ == n]
+        st = PROVED if all(r == z3.unsat for r in rs) else (NOINPUT if any(r == z3.sat for r in rs) else UNKNOWN)
+        out.append(res(f"{label}.{n}", "vc", st, 0, "z3-5.1.0(api)", instances=len(rs)))
     # ---- vacuity guards
     def cover(cname, ok, **kw): out.append(res(f"{label}.cover.{cname}", "cover", OK if ok else VACUOUS, 0, "z3", **kw))
     wa = log.get(("witness-assumptions",))
@@ -571,7 +707,12 @@ def prove_complete(label, setup, fn_real, spec_keys, replay=None, extra_globals=
     for k, e in dropped:
         r, _ = _decide(e["pc"])
         if r == z3.sat: okd = True; break
-    cover("paths-dropped-by-exhaustion", okd, events={f"{infos[k[1]]['target']}:{k[2]}": e["count"] for k, e in dropped})
+    if any(i["can_leave"] for i in infos.values()):
+        cover("paths-dropped-by-exhaustion", okd, events={f"{infos[k[1]]['target']}:{k[2]}": e["count"] for k, e in dropped})
+    else:                                                # best-of search: no iteration ever leaves; the witness iteration must complete and the code must get past its refusal point
+        e = log.get(("search-done",)); oks = False
+        if e and e["pc"] is not None: r, _ = _decide(e["pc"]); oks = r == z3.sat
+        cover("search-passes-its-refusal-point", oks, paths=(e or {}).get("count", 0))
     if returned: cover("return-reachable", any(r[1] == z3.sat for r in returned), paths=len(returned))
     ex2 = explore(run_with(False))
     cover("refusal-reachable-without-witness-facts", any(r[0] == "refused" and r[1] == z3.sat for r in ex2["results"]) and not ex2["faults"], paths=ex2["done"], info="; ".join(ex2["faults"])[:300])
@@ -911,11 +1052,212 @@ def c_ecp5_native_findings():
             out.append(res(name, "finding-witness", VIOLATED if wrong else PROVED, 0, "executed", what=what, info=f"clkin={fin} outs={outs}: {'refused' if cfg is None else 'returned'}; independent exact search: {ex}"))
         else:
             out.append(res(name, "bounded", BOUNDED_OK if not wrong else VIOLATED, 0, "executed", info=f"clkin={fin} outs={outs}: {'refused' if cfg is None else 'returned'}; independent exact search: {ex}"))
-    one("finding.complete.feedback-through-output-0.native[clkin=10MHz,outs=50/25/12.5/6.25MHz@1e-2]", ECP5_F1, 10e6, [(50e6, 1e-2), (25e6, 1e-2), (12.5e6, 1e-2), (6.25e6, 1e-2)], True)
-    one("ens.complete.native[clkin=10MHz,outs=25/50/12.5/6.25MHz@1e-2] (control: outputs 0 and 1 swapped)", "", 10e6, [(25e6, 1e-2), (50e6, 1e-2), (12.5e6, 1e-2), (6.25e6, 1e-2)], False)
-    one("finding.complete.first-fit-divider-hides-feedback-output.native[clkin=10MHz,outs=64@1e-3/10@2e-2/32@1e-3/16MHz@1e-3]", ECP5_F2, 10e6, [(64e6, 1e-3), (10e6, 2e-2), (32e6, 1e-3), (16e6, 1e-3)], True)
-    one("ens.complete.native[clkin=10MHz,outs=64/10/32/16MHz@1e-3] (control: margin of output 1 tightened)", "", 10e6, [(64e6, 1e-3), (10e6, 1e-3), (32e6, 1e-3), (16e6, 1e-3)], False)
+    one("finding.complete.feedback-through-output-0.native(clkin=10MHz,outs=50/25/12.5/6.25MHz@1e-2)", ECP5_F1, 10e6, [(50e6, 1e-2), (25e6, 1e-2), (12.5e6, 1e-2), (6.25e6, 1e-2)], True)
+    one("ens.complete.native(clkin=10MHz,outs=25/50/12.5/6.25MHz@1e-2) (control: outputs 0 and 1 swapped)", "", 10e6, [(25e6, 1e-2), (50e6, 1e-2), (12.5e6, 1e-2), (6.25e6, 1e-2)], False)
+    one("finding.complete.first-fit-divider-hides-feedback-output.native(clkin=10MHz,outs=64@1e-3,10@2e-2,32@1e-3,16MHz@1e-3)", ECP5_F2, 10e6, [(64e6, 1e-3), (10e6, 2e-2), (32e6, 1e-3), (16e6, 1e-3)], True)
+    one("ens.complete.native(clkin=10MHz,outs=64/10/32/16MHz@1e-3) (control: margin of output 1 tightened)", "", 10e6, [(64e6, 1e-3), (10e6, 1e-3), (32e6, 1e-3), (16e6, 1e-3)], False)
     return dict(results=out, functions=[MODP + "lattice_ecp5.ECP5PLL.compute_config"], samples=[dict(bounded="ECP5PLL 4 outputs", requests=4)])
+
+# ------------------------------------------------------------------------------------------------------------ Gowin GW1N/GW2A (best-of search)
+from litex.soc.cores.clock import gowin_gw1n, gowin_gw2a
+GW_DEVICES = {"GW1N": (gowin_gw1n.GW1NPLL, "GW1NR-LV9QN88PC6/I5"), "GW1NS": (gowin_gw1n.GW1NPLL, "GW1NSR-LV4CQN48PC7/I6"), "GW2A": (gowin_gw2a.GW2APLL, "GW2A-LV18PG256C8/I7")}
+GW_ODIV = [2, 4, 8, 16, 32, 48, 64, 80, 96, 112, 128]          # ODIV_SEL values of the rPLL primitive
+GW_F3 = ("GW1NPLL.compute_config (also GW2APLL) re-checks the selected candidate with `diff_f > r_freq*margin` - margin times the OBTAINED frequency: when the best reachable "
+         "frequency lies below the request by more than margin*obtained but at most margin*requested the request is refused although the setting meets it within its stated margin "
+         "(clkin 3 MHz, out 99.995 MHz @1e-2: idiv 1, fdiv 33, odiv 8 gives 99 MHz, 0.995 % below the request, VCO 792 MHz; 'Can\'t obtain requested frequency 995000.0 > 990000.0') "
+         "(native replay: tools/replay_c20_gw1n_final_margin.py)")
+
+def _gw_native(devkey, fin, outs):
+    cls, device = GW_DEVICES[devkey]
+    pll = cls("dev", device); pll.logger.disabled = True; pll.clkin_freq = fin
+    for n, (f, m) in enumerate(outs): pll.clkouts[n] = (Signal(), f, 0, m)
+    pll.nclkouts = len(outs)
+    return pll
+def _gw_exists(pll, fin, f, m, hi):
+    fin, f, m = _fr(fin), _fr(f), _fr(m); vm = _fr(pll.vco_margin)
+    for idiv in range(1, hi):
+        pfd = fin / idiv
+        if not (_fr(pll.pfd_freq_range[0]) <= pfd <= _fr(pll.pfd_freq_range[1])): continue
+        for fdiv in range(1, hi):
+            out = fin * fdiv / idiv
+            if abs(out - f) > f * m: continue
+            for odiv in GW_ODIV:
+                if _fr(pll.vco_freq_range[0]) * (1 + vm) <= out * odiv <= _fr(pll.vco_freq_range[1]) * (1 - vm): return dict(idiv=idiv, fdiv=fdiv, odiv=odiv, out=float(out), vco=float(out * odiv))
+    return None
+
+def c_gw1n(devkey, device_ranges):
+    """one output (the reference output of the search).  Theorem: the SEARCH does not end with 'No PLL config found' when a setting (idiv, fdiv, odiv)
+    exists.  device_ranges=False: idiv, fdiv in the ranges the helper iterates (1..63); True: 1..64 as the primitive and the helper's own parameter comments
+    state ('Static IDIV value (1-64)') - the known finding fdiv64, kept as a finding clause.  The code after the search is not part of this theorem."""
+    cls, device = GW_DEVICES[devkey]; hi = 65 if device_ranges else 64
+    label = f"{cls.__name__}({devkey},nout=1,idiv/fdiv 1..{hi - 1}).compute_config"
+    def setup(ctx):
+        pll = cls("dev", device); pll.logger.disabled = True; terms = {}
+        fin, reqs = _reqs(pll, 1, terms); f, m = reqs[0]
+        idiv = _member_decl("W_idiv", (1, hi)); fdiv = _member_decl("W_fdiv", (1, hi))
+        odiv = SymInt(z3.Int("W_odiv")); _assume(z3.Or(*[odiv.t == e for e in GW_ODIV]))
+        pfd = fin.t / _r(idiv); out = fin.t * _r(fdiv) / _r(idiv); vco = out * _r(odiv)
+        _assume(z3.And(pfd >= _r(pll.pfd_freq_range[0]), pfd <= _r(pll.pfd_freq_range[1])))
+        _assume(z3.And(vco >= _r(pll.vco_freq_range[0] * (1 + pll.vco_margin)), vco <= _r(pll.vco_freq_range[1] * (1 - pll.vco_margin))))
+        _assume(_within(out, f, m))
+        terms.update(W_idiv=idiv.t, W_fdiv=fdiv.t, W_odiv=odiv.t)
+        return pll, {"idiv": dict(witness=lambda vc, L: idiv), "fdiv": dict(witness=lambda vc, L: fdiv), "odiv": dict(witness=lambda vc, L: odiv)}, terms
+    def replay(v, planted):
+        fin = float(v["fin"]); f, m = float(v["f0"]), float(v["m0"])
+        if planted: f, m = fin * int(v["W_fdiv"]) / int(v["W_idiv"]), 1e-12
+        pll = _gw_native(devkey, fin, [(f, m)])
+        try: pll.compute_config(); msg = None
+        except ValueError as e: msg = str(e)
+        except Exception as e: return "crash", f"{cls.__name__} clkin={fin!r} out={(f, m)!r}: compute_config raised {type(e).__name__}: {e}"
+        ex = _gw_exists(pll, fin, f, m, hi)
+        return ("refused-though-a-setting-exists" if msg == "No PLL config found" and ex is not None else "ok",
+                f"{cls.__name__}({device}) clkin={fin!r} out={(f, m)!r}: compute_config {'raised ValueError(' + msg + ')' if msg is not None else 'returned'}; independent exact search (idiv, fdiv 1..{hi - 1}): {ex}")
+    out = prove_complete(label, setup, cls.compute_config, ["idiv", "fdiv", "odiv"], replay=replay, grow=("configs",))
+    if device_ranges:
+        for r_ in out:
+            if r_["name"].endswith(".ens.complete"):
+                r_["name"] = r_["name"][:-len("ens.complete")] + "finding.complete.fdiv64"; r_["kind"] = "finding-witness"
+                r_["what"] = "GW1NPLL.compute_config searches idiv and fdiv over range(1, 64) although 64 is legal (known finding fdiv64): with the witness setting taken from 1..64 the refusal is reachable"
+    return dict(results=out, functions=[MODP + "gowin_gw1n.GW1NPLL.compute_config (search part)"], samples=[dict(function=f"{cls.__name__}.compute_config", theorem="ens.complete (search part)")])
+
+def c_gw1n_native_findings():
+    out = []
+    for devkey, fin, f, m in (("GW1N", 3e6, 99.995e6, 1e-2), ("GW2A", 3e6, 99.995e6, 1e-2)):
+        pll = _gw_native(devkey, fin, [(f, m)])
+        try: pll.compute_config(); msg = None
+        except ValueError as e: msg = str(e)
+        ex = _gw_exists(pll, fin, f, m, 64)
+        out.append(res(f"finding.complete.final-margin-on-obtained-frequency.native({devkey} clkin=3MHz,out=99.995MHz@1e-2)", "finding-witness", VIOLATED if msg is not None and ex is not None else PROVED, 0, "executed",
+                       what=GW_F3, info=f"compute_config: {'ValueError(' + msg + ')' if msg is not None else 'returned'}; independent exact search: {ex}"))
+    for devkey, fin, f, m in (("GW1N", 3e6, 99.0e6, 1e-2), ("GW1N", 3e6, 98.1e6, 1e-2)):          # controls: above / exactly at an obtainable frequency
+        pll = _gw_native(devkey, fin, [(f, m)])
+        try: pll.compute_config(); msg = None
+        except ValueError as e: msg = str(e)
+        ex = _gw_exists(pll, fin, f, m, 64)
+        out.append(res(f"ens.complete.native({devkey} clkin=3MHz,out={f/1e6:g}MHz@1e-2) (control)", "bounded", BOUNDED_OK if (msg is None) == (ex is not None) else VIOLATED, 0, "executed", info=f"{msg} / {ex}"))
+    return dict(results=out, functions=[MODP + "gowin_gw1n.GW1NPLL.compute_config"], samples=[dict(bounded="GW1NPLL final margin", requests=4)])
+
+# ------------------------------------------------------------------------------------------------------------ IntelClocking (best-of search)
+from litex.soc.cores.clock import intel_common, intel_cyclone4, intel_cyclone5, intel_cyclone10, intel_max10, intel_stratix5
+INTEL = {"CycloneIVPLL": intel_cyclone4.CycloneIVPLL, "CycloneVPLL": intel_cyclone5.CycloneVPLL, "Cyclone10LPPLL": intel_cyclone10.Cyclone10LPPLL,
+         "Max10PLL": intel_max10.Max10PLL, "StratixVPLL": intel_stratix5.StratixVPLL}
+
+def _intel_native(clsname, sg, fin, outs):
+    pll = INTEL[clsname](speedgrade=sg); pll.logger.disabled = True; pll.clkin_freq = fin
+    for n, (f, m) in enumerate(outs): pll.clkouts[n] = (Signal(), f, 0, m)
+    pll.nclkouts = len(outs)
+    return pll
+def _intel_exists(pll, fin, outs):
+    fin = _fr(fin); outs = [(_fr(f), _fr(m)) for f, m in outs]; vm = _fr(pll.vco_margin)
+    for n in range(*pll.n_div_range):
+        pfd = fin / n
+        if not (_fr(pll.clkin_pfd_freq_range[0]) <= pfd <= _fr(pll.clkin_pfd_freq_range[1])): continue
+        for m in range(*pll.m_div_range):
+            vco = fin * m / n
+            if vco > _fr(pll.vco_freq_range[1]) * (1 - vm): break
+            if vco < _fr(pll.vco_freq_range[0]) * (1 + vm): continue
+            cs = [_first_member_within(pll.c_div_range, vco, f, mg) for f, mg in outs]
+            if all(c is not None for c in cs): return dict(n=n, m=m, c=[str(c) for c in cs], vco=float(vco))
+    return None
+
+def c_intel(clsname, sg, nout):
+    """best-of search: every admissible (n, m) is stored in `valid_configs`, refusal iff it stays empty.  Declared facts (checked):
+    `valid_configs` is only stored into inside the loops (never emptied); in the divider loop `clk_valid` is only written by
+    `clk_valid[..] = True`; invariant of the divider loop: best_diff is float('inf') or clk_valid[_n] is True (init + step obligations)"""
+    cls = INTEL[clsname]; label = f"{clsname}(sg={sg},nout={nout}).compute_config"
+    def setup(ctx):
+        pll = cls(speedgrade=sg); pll.logger.disabled = True; terms = {}
+        fin, reqs = _reqs(pll, nout, terms)
+        nW = _member_decl("W_n", pll.n_div_range); mW = _member_decl("W_m", pll.m_div_range)
+        pfd = fin.t / _r(nW); vco = fin.t * _r(mW) / _r(nW)
+        _assume(z3.And(pfd >= _r(pll.clkin_pfd_freq_range[0]), pfd <= _r(pll.clkin_pfd_freq_range[1])))
+        _assume(z3.And(vco >= _r(pll.vco_freq_range[0] * (1 + pll.vco_margin)), vco <= _r(pll.vco_freq_range[1] * (1 - pll.vco_margin))))
+        terms.update(W_n=nW.t, W_m=mW.t); cW = {}
+        for k, (f, m) in enumerate(reqs):
+            c = _member_decl(f"W_c{k}", pll.c_div_range); _assume(_within(vco / _r(c), f, m)); cW[k] = c; terms[f"W_c{k}"] = _r(c)
+        def typed_bd(vc, L):
+            if bool(vc.fresh("bool", "best_diff_is_inf")): return InfReal()
+            cv = L["clk_valid"]; k = L["_n"]; e = cv[k]                 # finite best_diff: by the invariant clk_valid[_n] holds
+            if e is False: raise PathEnd()
+            if e is not True: _assume(e.t); cv[k] = True
+            return vc.fresh("real", "best_diff")
+        def inv_c(vc, L):
+            if isinstance(L["best_diff"], InfReal): return True
+            e = L["clk_valid"][L["_n"]]
+            return e if isinstance(e, SymBool) else bool(e)
+        specs = {"n": dict(witness=lambda vc, L: nW), "m": dict(witness=lambda vc, L: mW),
+                 "c": dict(witness=lambda vc, L: cW[L["_n"]], typed={"best_diff": typed_bd}, inv=inv_c, mono_true=("clk_valid",))}
+        return pll, specs, terms
+    def replay(v, planted):
+        fin = float(v["fin"]); outs = [(float(v[f"f{n}"]), float(v[f"m{n}"])) for n in range(nout)]
+        if planted: outs = [(fin * int(v["W_m"]) / int(v["W_n"]) / float(v[f"W_c{n}"]), 1e-12) for n in range(nout)]
+        pll = _intel_native(clsname, sg, fin, outs)
+        try: cfg = _native_call(pll)
+        except Exception as e: return "crash", f"{clsname} clkin={fin!r} outs={outs!r}: compute_config raised {type(e).__name__}: {e}"
+        ex = _intel_exists(pll, fin, outs)
+        return ("refused-though-a-setting-exists" if cfg is None and ex is not None else "ok",
+                f"{clsname}(speedgrade={sg}) clkin={fin!r} outs={outs!r}: compute_config {'raised ValueError' if cfg is None else 'returned'}; independent exact search over the declared ranges: {ex}")
+    def gm(vals): _FR[0] += 1; return SymReal(z3.Real(f"geometric_mean!c{_FR[0]}"))
+    out = prove_complete(label, setup, intel_common.IntelClocking.compute_config, ["n", "m", "c"], replay=replay, grow=("valid_configs",), extra_globals=dict(geometric_mean=gm))
+    return dict(results=out, functions=[MODP + "intel_common.IntelClocking.compute_config", MODP + "common.clkdiv_range (real generator, materialised)"],
+                samples=[dict(function=f"{clsname}.compute_config", theorem="ens.complete")])
+
+# ------------------------------------------------------------------------------------------------------------ planted requests (bounded, native)
+def c_planted():
+    """bounded cross-check for the non-Xilinx helpers, real classes under plain CPython: a random setting inside the declared ranges (boundary
+    members over-represented) is chosen first, the request is what it produces (margin 1e-9): refusing it is always wrong"""
+    rnd = random.Random(99); out = []
+    def edge(lo, hi_incl): return rnd.choice([lo, hi_incl, rnd.randint(lo, hi_incl), rnd.randint(lo, hi_incl)])
+    def window(lo, hi): return rnd.choice([lo * (1 + 1e-6), hi * (1 - 1e-6), rnd.uniform(lo, hi)])
+    def report(name, evals, bad): out.append(res(f"ens.complete.planted[{name}, {evals} requests]", "bounded", BOUNDED_OK if not bad else VIOLATED, 0, "planted settings, executed", evaluations=evals, info=str(bad[:2])[:700]))
+    # iCE40
+    bad = []; ev = 0; R = lattice_ice40.iCE40PLL
+    for _ in range(60):
+        divr = edge(R.divr_range[0], R.divr_range[1] - 1); divf = edge(R.divf_range[0], R.divf_range[1] - 1); divq = edge(R.divq_range[0], R.divq_range[1] - 1)
+        vco = window(*R.vco_freq_range); fin = vco * (divr + 1) / (divf + 1); vco = fin / (divr + 1) * (divf + 1)
+        if not (R.vco_freq_range[0] <= vco <= R.vco_freq_range[1]): continue
+        pll = R(); pll.logger.disabled = True; pll.clkin_freq = fin; pll.clkouts[0] = (Signal(), vco / 2 ** divq, 0, 1e-9); pll.nclkouts = 1; ev += 1
+        if _native_call(pll) is None: bad.append(dict(clkin=fin, out=vco / 2 ** divq, planted=dict(divr=divr, divf=divf, divq=divq)))
+    report("iCE40PLL", ev, bad)
+    # NXPLL
+    bad = []; ev = 0; R = lattice_nx.NXPLL
+    for _ in range(60):
+        ki = edge(R.clki_div_range[0], R.clki_div_range[1] - 1); kf = edge(R.clkfb_div_range[0], R.clkfb_div_range[1] - 1)
+        vco = window(*R.vco_out_freq_range); fin = vco * ki / kf; vco = fin / ki * kf
+        if not (R.vco_out_freq_range[0] <= vco <= R.vco_out_freq_range[1]): continue
+        ds = [edge(R.clko_div_range[0], R.clko_div_range[1] - 1) for _ in range(rnd.choice([1, 2, 3]))]
+        pll = _mk_nx(); pll.logger.disabled = True; pll.clkin_freq = fin
+        for n, d in enumerate(ds): pll.clkouts[n] = (Signal(), vco / d, 0, 1e-9)
+        pll.nclkouts = len(ds); ev += 1
+        if _native_call(pll) is None: bad.append(dict(clkin=fin, outs=[vco / d for d in ds], planted=dict(clki_div=ki, clkfb_div=kf, d=ds)))
+    report("NXPLL", ev, bad)
+    # ECP5 (1..3 outputs: a spare output closes the loop)
+    bad = []; ev = 0; R = lattice_ecp5.ECP5PLL
+    for _ in range(60):
+        ki = edge(R.clki_div_range[0], R.clki_div_range[1] - 1); kf = edge(1, 16); kofb = edge(1, 16)
+        vco = window(*R.vco_freq_range); pfd = vco / kf / kofb
+        if not (R.pfd_freq_range[0] * (1 + 1e-6) <= pfd <= R.pfd_freq_range[1] * (1 - 1e-6)): continue
+        fin = pfd * ki; vco = (fin / ki) * kf * kofb
+        if not (R.vco_freq_range[0] <= vco <= R.vco_freq_range[1]): continue
+        ds = [edge(R.clko_div_range[0], R.clko_div_range[1] - 1) for _ in range(rnd.choice([1, 2, 3]))]
+        pll = _ecp5_native(fin, [(vco / d, 1e-9) for d in ds]); ev += 1
+        if _native_call(pll) is None: bad.append(dict(clkin=fin, outs=[vco / d for d in ds], planted=dict(clki_div=ki, clkfb_div=kf, clkofb_div=kofb, d=ds)))
+    report("ECP5PLL", ev, bad)
+    # GW1N / GW2A: search part (refusal 'No PLL config found')
+    for devkey in GW_DEVICES:
+        bad = []; ev = 0; probe = _gw_native(devkey, 1e6, [(1e6, 0)])
+        for _ in range(40):
+            idiv = edge(1, 63); fdiv = edge(1, 63); odiv = rnd.choice(GW_ODIV)
+            vco = window(*probe.vco_freq_range); out_f = vco / odiv; pfd = out_f / fdiv
+            if not (probe.pfd_freq_range[0] * (1 + 1e-6) <= pfd <= probe.pfd_freq_range[1] * (1 - 1e-6)): continue
+            fin = pfd * idiv; out_f = fin * fdiv / idiv
+            if not (probe.vco_freq_range[0] <= out_f * odiv <= probe.vco_freq_range[1]): continue
+            pll = _gw_native(devkey, fin, [(out_f, 1e-9)]); ev += 1
+            try: pll.compute_config()
+            except ValueError as e:
+                if str(e) == "No PLL config found": bad.append(dict(clkin=fin, out=out_f, planted=dict(idiv=idiv, fdiv=fdiv, odiv=odiv)))
+        report(f"{type(probe).__name__}({devkey})", ev, bad)
+    return dict(results=out, functions=[], samples=[dict(bounded="planted requests")])
 
 def cases(tier):
     cs = [Case("S7PLL(-1,1).complete", c_xilinx, "S7PLL", -1, 1), Case("S7PLL(-1,2).complete", c_xilinx, "S7PLL", -1, 2),
@@ -924,7 +1266,16 @@ def cases(tier):
           Case("USPPLL(-1,2).complete", c_xilinx, "USPPLL", -1, 2),
           Case("Xilinx.complete(bounded)", c_xilinx_bounded),
           Case("iCE40PLL.complete", c_ice40), Case("NXPLL(1).complete", c_nx, 1), Case("NXPLL(2).complete", c_nx, 2),
-          Case("ECP5PLL(1).complete", c_ecp5, 1), Case("ECP5PLL(2).complete", c_ecp5, 2)]
+          Case("ECP5PLL(1).complete", c_ecp5, 1), Case("ECP5PLL(2).complete", c_ecp5, 2), Case("ECP5PLL(4 outputs).native", c_ecp5_native_findings),
+          Case("S7PLL(-3,4).complete", c_xilinx, "S7PLL", -3, 4), Case("S7PLL(-1,2,vco_margin).complete", c_xilinx, "S7PLL", -1, 2, True), Case("NXPLL(5).complete", c_nx, 5),
+          Case("GW1NPLL(GW1N).complete", c_gw1n, "GW1N", False), Case("GW1NPLL(GW1NS).complete", c_gw1n, "GW1NS", False), Case("GW2APLL(GW2A).complete", c_gw1n, "GW2A", False),
+          Case("GW1NPLL(GW1N,1..64).complete", c_gw1n, "GW1N", True), Case("GW1NPLL.native", c_gw1n_native_findings),
+          Case("planted(bounded)", c_planted),
+          Case("CycloneIVPLL(-6,1).complete", c_intel, "CycloneIVPLL", "-6", 1), Case("CycloneIVPLL(-6,2).complete", c_intel, "CycloneIVPLL", "-6", 2)]
+    if tier == "thorough":
+        cs += [Case("ECP5PLL(3).complete", c_ecp5, 3, timeout=1800), Case("ECP5PLL(4,fb0).complete", c_ecp5_full, "fb0", timeout=3600),
+               Case("ECP5PLL(4,first).complete", c_ecp5_full, "first", timeout=3600), Case("ECP5PLL(4,nonfirst).complete", c_ecp5_full, "nonfirst", timeout=3600),
+               Case("S7MMCM(-1,3).complete", c_xilinx, "S7MMCM", -1, 3, timeout=1800)]
     return cs
 
 ASSUMPTIONS = []
